@@ -21,6 +21,8 @@
 package scheduler
 
 import (
+	"errors"
+
 	"github.com/apache/yunikorn-core/pkg/handler"
 	"github.com/apache/yunikorn-core/pkg/rmproxy/rmevent"
 	"github.com/apache/yunikorn-core/pkg/scheduler/objects"
@@ -63,8 +65,15 @@ func (v *VerifCore) Allocs(req *si.AllocationRequest) {
 
 func (v *VerifCore) Schedule() bool { return v.CC.schedule() }
 
+// Reload goes through the RM configuration update event handler (validation, unchanged-configuration short cut,
+// update, bookkeeping of the active configuration), synchronously.
 func (v *VerifCore) Reload(rmID string, config []byte) error {
-	return v.CC.UpdateRMSchedulerConfig(rmID, config)
+	ch := make(chan *rmevent.Result, 1)
+	v.CC.processRMConfigUpdateEvent(&rmevent.RMConfigUpdateEvent{RmID: rmID, Config: string(config), Channel: ch})
+	if r := <-ch; !r.Succeeded {
+		return errors.New(r.Reason)
+	}
+	return nil
 }
 
 func (v *VerifCore) Partition(name string) *PartitionContext { return v.CC.GetPartition(name) }
